@@ -21,6 +21,7 @@ fn enc(c: &C) -> Vec<String> {
 }
 
 fn dec(t: &[String]) -> Option<C> {
+    let (t, _) = split_flavour(t);
     let mut r = R::new(t);
     let bulk = r.list(|r| Some((Rec::get(r)?, r.u64()?)))?;
     let ins = r.list(|r| Some((Rec::get(r)?, r.u64()?)))?;
@@ -32,25 +33,30 @@ fn valid(c: &C) -> bool { c.qs.iter().all(|q| q.start < q.end) }
 
 fn exec(t: &[String]) -> Option<String> {
     let c = dec(t)?;
-    let mut m: GIntervalMap<u64> = c.bulk.iter().map(|(r, v)| (r.gr(), *v)).collect();
-    for (r, v) in &c.ins { m.insert(&r.gr(), *v); }
+    let fl = split_flavour(t).1;
+    // records and queries carried by the flavour's BEDLike implementor (the map keys on chrom/start/end only)
+    let bulk_recs: Vec<Rec> = c.bulk.iter().map(|x| x.0.clone()).collect();
+    let mut m: GIntervalMap<u64> = crate::with_bedlikes!(fl, &bulk_recs, |xs| xs.into_iter().zip(c.bulk.iter().map(|x| x.1)).collect());
+    for (i, (r, v)) in c.ins.iter().enumerate() { crate::with_bedlike!(rot_flavour(fl, i), r, |x| m.insert(&x, *v)); }
     let mut w = W::new();
     w.n(m.len());
     let it: Vec<_> = m.iter().collect();
     w.n(it.len());
     for (g, v) in it { put_gr(&mut w, &g); w.n(*v); }
     w.n(c.qs.len());
-    for q in &c.qs {
-        let q = q.gr();
-        w.flag(m.is_overlapped(&q));
-        let f: Vec<_> = m.find(&q).collect();
-        w.n(f.len());
-        for (g, v) in f { w.b(g.chrom().as_bytes()).n(g.start()).n(g.end()).n(*v); }
+    for (i, q) in c.qs.iter().enumerate() {
+        crate::with_bedlike!(rot_flavour(fl, i), q, |q| {
+            w.flag(m.is_overlapped(&q));
+            let f: Vec<_> = m.find(&q).collect();
+            w.n(f.len());
+            for (g, v) in f { w.b(g.chrom().as_bytes()).n(g.start()).n(g.end()).n(*v); }
+        });
     }
     Some(w.join())
 }
 
-fn shrink(t: &[String]) -> Vec<Vec<String>> {
+fn shrink(t: &[String]) -> Vec<Vec<String>> { shrink_flavoured(t, shrink0) }
+fn shrink0(t: &[String]) -> Vec<Vec<String>> {
     let Some(c) = dec(t) else { return vec![] };
     let mut out = vec![];
     for qs in shrink_vec(&c.qs) { if !qs.is_empty() { out.push(C { qs, ..c.clone() }); } }
@@ -153,6 +159,7 @@ fn gen(rng: &mut Rng, tier: Tier) -> Vec<Case> {
         let (bulk, ins) = split_history(rng, recs);
         out.push(Case::new("random", enc(&C { bulk, ins, qs })));
     }
+    add_flavours(rng, &mut out);
     out
 }
 
